@@ -2,6 +2,7 @@
 package lexer
 
 import (
+	"bytes"
 	"errors"
 	"fmt"
 	"io"
@@ -62,7 +63,16 @@ type Lexer struct {
 // New creates a new lexical analyzer for the EBNF language.
 // EBNF (Extended Backus-Naur Form) is used to define context-free grammars and their corresponding languages.
 func New(filename string, src io.Reader) (*Lexer, error) {
-	in, err := input.New(filename, src, bufferSize)
+	// The input buffer treats a short read as the end of the input and reports the end of the input
+	// as soon as the last character has been read, even if that character is retracted afterwards.
+	// Reading the source completely and terminating it with a newline guarantees that
+	// the last token is always followed by a character and is never lost.
+	data, err := io.ReadAll(src)
+	if err != nil {
+		return nil, err
+	}
+
+	in, err := input.New(filename, bytes.NewReader(append(data, '\n')), bufferSize)
 	if err != nil {
 		return nil, err
 	}
